@@ -214,6 +214,16 @@ def scheds(e, acc=None):
     return acc
 
 
+RAW = [False]
+def to_raw(e):
+    """to_model without the then() that stands for a void upon_error / upon_done callable (corpus selection by prefix)"""
+    RAW[0] = True
+    try:
+        return to_model(e)
+    finally:
+        RAW[0] = False
+
+
 def to_model(e):
     k = e[0]
     if k == "sched": return "(sched %d %d)" % (e[1], e[2])
@@ -230,11 +240,26 @@ def to_model(e):
     if k in ("lvss", "repeat"): return "(%s %s %s)" % (k, e[1], to_model(e[2]))
     if k in ("intov", "defer"): return "(%s %s)" % (k, to_model(e[1]))
     if k == "retry": return "(retry %d %s %s)" % (e[1], to_model(e[2]), to_model(e[3]))
+    if k in ("uerr", "udone") and upon_variant(e[1])[0] and not RAW[0]:
+        # the callable returns void: the value is produced by a then() on top (k2v2::uerr_v / udone_v)
+        return "(then (add 0) (%s (%s) %s))" % (k, " ".join(map(str, e[1])), to_model(e[2]))
     if k in ("then", "uerr", "udone"):
         return "(%s (%s) %s)" % (k, " ".join(map(str, e[1])), to_model(e[2]))
     if k == "withq": return "(withq %d %d %s)" % (e[1], e[2], to_model(e[3]))
     if k in ("unstop", "mat", "dopt"): return "(%s %s)" % (k, to_model(e[1]))
     return "(%s %s %s)" % (k, to_model(e[1]), to_model(e[2]))
+
+
+def upon_variant(f):
+    """(void?, noexcept?) of the callable handed to upon_error / upon_done, a function of the callable's constant:
+    upon_error.hpp / upon_done.hpp have one branch for each of the four combinations"""
+    v = f[1] % 4
+    return (v in (1, 3), v in (2, 3) and f[0] in ("add", "mul"))
+
+
+def upon_cpp(k, f, sub):
+    void, nx = upon_variant(f)
+    return "k2v2::%s%s%s(%s, %s)" % (k, "_v" if void else "", "_nx" if nx else "", sub, k2.cpp_fn(f))
 
 
 def to_cpp(e, bound=(), ss=()):
@@ -280,8 +305,7 @@ def _cpp(e, bound, ss, watch=None):
     if k == "on": return "unifex::on(k2v2::sched{%d}, %s)" % (e[2], to_cpp(e[3], bound))
     if k == "wsav": return "k2v2::wsa(%s, k2v2::sched{%d})" % (to_cpp(e[3], bound), e[2])
     if k == "then": return "k2v2::thenf(%s, %s)" % (to_cpp(e[2], bound), k2.cpp_fn(e[1]))
-    if k == "uerr": return "k2v2::uerr(%s, %s)" % (to_cpp(e[2], bound), k2.cpp_fn(e[1]))
-    if k == "udone": return "k2v2::udone(%s, %s)" % (to_cpp(e[2], bound), k2.cpp_fn(e[1]))
+    if k in ("uerr", "udone"): return upon_cpp(k, e[1], to_cpp(e[2], bound))
     if k == "withq": return "unifex::with_query_value(%s, k2::get_q%d, %d)" % (to_cpp(e[3], bound), e[1], e[2])
     if k == "unstop": return "unifex::unstoppable(%s)" % to_cpp(e[1], bound)
     if k == "mat": return "k2v2::mat(%s)" % to_cpp(e[1], bound)
@@ -628,6 +652,12 @@ CORPUS = list(k2.CORPUS) + [
     ("wany", ("alloc", ("leaf", 0)), ("walloc", 1, ("alloc", ("leafc", 40)))),
     ("repeat", "b0", ("alloc", ("leaf", 0))),
     ("intov", ("alloc", ("uerr", ("add", 1), ("leaf", 0)))),
+    # the four branches of upon_done.hpp / upon_error.hpp (callable void or not, noexcept or not; see upon_variant)
+    ("intov", ("udone", ("throw", 51), ("leaf", 0))),
+    ("lete", ("udone", ("throwif", 0, 63), ("leaf", 0)), ("leaf", 1)),
+    ("intov", ("uerr", ("throw", 55), ("seq", ("leaf", 0), ("leaf", 1)))),
+    ("udone", ("add", 3), ("swhen", ("leaf", 0), ("leaf", 1))),
+    ("fin", ("uerr", ("mul", 6), ("udone", ("mul", 7), ("leaf", 0))), ("leaf", 1)),
     ("walloc", 2, ("wall", ("alloc", ("leaf", 0)), ("alloc", ("leafc", 40)))),
     ("wall", ("alloc", ("leafc", 40)), ("alloc", ("leaf", 0))),
     ("swhen", ("alloc", ("leaf", 0)), ("walloc", 1, ("alloc", ("lvss", 0, ("leafc", 40))))),
@@ -801,10 +831,11 @@ def quick_corpus():
             "(fin (leaf 0) (leaf 1))", "(lete (unstop", "(intov (uerr (add 1) (withq", "(swhen (uerr", "(wall (leaf 0) (uerr",
             "(letv (leaf 0) (then", "(intov (retry", "(dopt (leaf 0))",
             "(seq (wall (leaf 0) (leafn 1)) (wall (leaf 2) (leafc", "(fin (leaf 0) (wall (leaf 1) (leafc", "(wany (leaf 0) (leafc",
+            "(intov (udone (throw 51)", "(lete (udone (throwif 0 63)", "(intov (uerr (throw 55) (seq", "(udone (add 3)",
             "(retry 1 (leaf 0) (seq", "(letv (leaf 0) (walloc 2", "(wall (alloc (leafc", "(walloc 1 (wall (alloc", "(fin (alloc"]
     out = []
     for w in want:
-        out += [c for c in CORPUS if to_model(c).startswith(w)][:1]
+        out += [c for c in CORPUS if to_raw(c).startswith(w)][:1]
     return out
 
 
